@@ -1506,6 +1506,7 @@ func partB() {
 	t2 := time.Now()
 	partBList()
 	partBMisc()
+	partBSearchRes()
 	flushFetchFailures()
 	flushBViolations()
 	fmt.Printf("  [B] search %d commands (%.1fs), fetch %d commands (%d compared with the section table, %d on parts that do not exist, %d on unspecified sections) (%.1fs), list %d, misc %d; %d commands ended with a dead connection\n",
